@@ -19,7 +19,7 @@ Open Scope Z_scope.
 """
 
 KINDS = ["int", "str", "list", "dict", "spec", "meth", "clsfun", "func", "class", "module"]
-CLS_ID = {"Inner": 0, "Base": 1, "Sub": 2, "Plain": 3, "Keyed": 4}
+CLS_ID = {"Inner": 0, "Base": 1, "Sub": 2, "Plain": 3, "Keyed": 4, "Frozen": 5, "Shared": 6}
 LONG = "ab" * 60
 
 
@@ -29,6 +29,8 @@ def attr_id(name):
         return {"p": 0, "q": 1}[name]
     if name == "k":
         return 40
+    if name == "f0":
+        return 45
     base = {"a": 10, "b": 30}[name[0]]
     return base + int(name[1:])
 
@@ -66,6 +68,9 @@ def family_source(fam):
            "@spec_class", "class Inner:", "    p: int = 0",
            "    q: Any = Attr(default=None, compare=False)",
            "@spec_class", "class Base:"]
+    dnc = [a["name"] for a in fam["attrs"] if a.get("dnc")]
+    if dnc:       # (Attr(do_not_copy=True) on the attribute itself is overridden by the decorator argument)
+        src[-2] = f"@spec_class(do_not_copy={dnc!r})"
     for a in fam["attrs"]:
         src += decl(a)
     src += ["    def meth0(self): return 0", "    def meth1(self): return 1"]
@@ -76,6 +81,8 @@ def family_source(fam):
         src += ["    pass"]
     src += ["class Plain(Base):", "    pass"]
     src += ["@spec_class(key='k')", "class Keyed:", "    k: Any", "    b0: Any = None"]
+    src += ["@spec_class(frozen=True)", "class Frozen:", "    f0: Any = None"]
+    src += ["@spec_class(do_not_copy=True)", "class Shared:", "    f0: Any = None"]
     return "\n".join(src) + "\n"
 
 
@@ -127,6 +134,8 @@ class Family:
         raise AssertionError(r)
 
     def instance(self, st):
+        if st["cls"] in ("Frozen", "Shared"):           # frozen: state only through the constructor
+            return self.classes[st["cls"]](**{n: self.build(r) for n, r in st["attrs"].items()})
         x = self.classes[st["cls"]]()
         for name, r in st["attrs"].items():
             if r[0] in ("default", "missing"):
@@ -643,6 +652,7 @@ def gen_family(rng, kinds=None, flags=None):
             a["default"] = rng.random() < 0.5
             # init=False only with a scalar default (DESIGN 5 #15: subclass constructors reject others)
             a["init"] = not (k in ("int", "str") and a["default"] and rng.random() < 0.15)
+            a["dnc"] = k in ("list", "dict", "spec", "meth") and rng.random() < 0.2
         attrs.append(a)
     sub = []
     if all(a.get("init", True) for a in attrs) and rng.random() < 0.8:
@@ -783,10 +793,25 @@ def generate(rng, tier):
         triples = [(a, b, c) for a in pool for b in pool for c in pool]
         for a, b, c in rng.sample(triples, 30 if quick else 180):
             cases.append({"kind": "tri", "fam": fid, "a": a, "b": b, "c": c, "gen": "pool-triple"})
+        # triples with equal members (a state, a fresh copy, a variant in a compare=False attribute)
+        for st in rng.sample(pool, 4 if quick else 8):
+            clone = json.loads(json.dumps(st))
+            var = json.loads(json.dumps(st))
+            for a in fam["attrs"]:
+                if a["kind"] != "clsfun" and not a.get("compare", True) and a.get("init", True):
+                    var["attrs"][a["name"]] = rng.choice(values_for(a["kind"], rng))
+            cases.append({"kind": "tri", "fam": fid, "a": st, "b": clone, "c": var, "gen": "equal-triple"})
+            cases.append({"kind": "tri", "fam": fid, "a": var, "b": st, "c": rng.choice(pool), "gen": "equal-triple"})
         for st in pool if not quick else rng.sample(pool, 8):
             cases.append({"kind": "dc", "fam": fid, "a": st, "gen": "deepcopy"})
             if rebuildable(fam, st):
                 cases.append({"kind": "rb", "fam": fid, "a": st, "gen": "rebuild"})
+        if fid % 4 == 0:
+            for r in (["list", [["int", 1]]], ["inner", {"p": ["int", 2]}], ["none"]):
+                for cname in ("Frozen", "Shared"):
+                    st = {"cls": cname, "attrs": {"f0": r}}
+                    cases.append({"kind": "dc", "fam": fid, "a": st, "gen": "deepcopy"})
+                    cases.append({"kind": "eq", "fam": fid, "a": st, "b": json.loads(json.dumps(st)), "gen": "pool-pair"})
         graphs = repr_graphs(rng, fam)
         for gr in (rng.sample(graphs, min(len(graphs), 12)) if quick else graphs):
             cases.append({"kind": "repr", "fam": fid, "graph": gr, "gen": "repr-graph"})
@@ -869,6 +894,64 @@ def describe(fam, case, code, obs):
             "meaning": MEANING.get(code, "?"), "replay": "bin/check C10 --replay <this file>"}
 
 
+class LineCoverage:
+    """which lines of the anchored functions the compared cases executed (sys.monitoring, 3.12)"""
+    FUNCS = ("eq", "repr", "object_repr", "deepcopy", "init")
+
+    def __init__(self):
+        import spec_classes.methods.core as core
+        self.file = core.__file__
+        self.hit = set()
+        self.codes = {}
+        src, _ = inspect.getsourcelines(core)
+        for name, obj in (("EqMethod.eq", core.EqMethod.eq), ("ReprMethod.repr", core.ReprMethod.repr),
+                          ("DeepCopyMethod.deepcopy", core.DeepCopyMethod.deepcopy), ("InitMethod.init", core.InitMethod.init)):
+            self.codes[name] = obj.__code__
+
+    def __enter__(self):
+        import sys
+        mon = sys.monitoring
+        self.tool = mon.COVERAGE_ID
+        try:
+            mon.use_tool_id(self.tool, "c10")
+        except ValueError:
+            self.tool = None
+            return self
+
+        def on_line(code, line):
+            if code.co_filename == self.file:
+                self.hit.add(line)
+                return None
+            return mon.DISABLE
+        mon.register_callback(self.tool, mon.events.LINE, on_line)
+        mon.set_events(self.tool, mon.events.LINE)
+        return self
+
+    def __exit__(self, *a):
+        import sys
+        if self.tool is not None:
+            sys.monitoring.set_events(self.tool, 0)
+            sys.monitoring.free_tool_id(self.tool)
+
+    def report(self):
+        import dis
+        out = {}
+        for name, code in self.codes.items():
+            lines = set()
+
+            def walk(c):
+                for _, _, ln in c.co_lines():
+                    if ln is not None and ln != c.co_firstlineno:
+                        lines.add(ln)
+                for k in c.co_consts:
+                    if hasattr(k, "co_lines"):
+                        walk(k)
+            walk(code)
+            missed = sorted(lines - self.hit)
+            out[name] = {"lines": len(lines), "executed": len(lines & self.hit), "not_executed": missed}
+        return out
+
+
 def main(tier, replay=None):
     chk = Check("C10", tier)
     if replay:
@@ -886,7 +969,9 @@ def main(tier, replay=None):
     chk.proofs()
     fams, cases = generate(chk.rng, tier)
     STATS.clear()
-    bad, logs = evaluate(fams, cases)
+    cov = LineCoverage()
+    with cov:
+        bad, logs = evaluate(fams, cases)
     stats = dict(STATS)
     reported = set()
     for i, code, obs in sorted(bad, key=lambda b: (-b[1], len(json.dumps(cases[b[0]]))))[:30]:
@@ -920,6 +1005,7 @@ def main(tier, replay=None):
         "correspondence": {"cases": len(cases), "families": len(fams), "disagreements": len(bad),
                            "by_kind": by_kind, "by_generator": by_gen,
                            "observation_histogram": stats,
+                           "anchored_line_coverage": cov.report(),
                            "attribute_kind_histogram": kinds_hist, "attributes_per_class": sizes,
                            "error_kinds": "RecursionError -> Fuel, any other exception -> -98, unparsable repr -> -97"},
         "evaluations": len(cases), "distinct_nontrivial": len(distinct),
